@@ -245,6 +245,40 @@ def directed_mpms() -> list[dict]:
     return out
 
 
+def directed_dce() -> list[dict]:
+    """zeros_like / ones_like references (what dead-code elimination rewrites):
+    of an input and of an expression, with and without a dtype= override that
+    differs from the argument's dtype, the result used in arithmetic whose
+    result dtype depends on it."""
+    out = []
+    k = 0
+    for like in ("zeros_like", "ones_like"):
+        for dtype, other in ((None, "f8"), ("i4", "i4"), ("f4", "f4"), ("b1", "i8"),
+                             ("i8", "f4")):
+            for of_expr in (False, True):
+                inputs = [progspace.inp("x", (3,)), progspace.inp("y", (3,), other)]
+                calls: list[dict] = []
+                src = 1
+                if of_expr:
+                    calls.append({"op": "mul", "a": 1, "b": {"py": "float", "v": "2.0"}})
+                    src = 3
+                c = {"op": like, "a": src}
+                if dtype:
+                    c["dtype"] = dtype
+                calls.append(c)
+                z = 2 + len(calls)
+                calls.append({"op": "add", "a": z, "b": 2})
+                calls.append({"op": "mul", "a": z, "b": z})
+                n = 2 + len(calls)
+                for pipe in (["dce"], ["dce", "dce"], ["copy", "dce", "dedup"]):
+                    out.append({"id": f"dce{k}_{like}_{dtype}_{int(of_expr)}_{'-'.join(pipe)}",
+                                "inputs": inputs, "calls": calls,
+                                "outs": {"out0": n - 1, "out1": n, "out2": z},
+                                "pipeline": pipe})
+                k += 1
+    return out
+
+
 def fan_out(p: dict, rng: np.random.Generator) -> dict:
     """Adds readers: pairs of existing same-shaped intermediate values are
     added up and become extra outputs, so that intermediates have several
@@ -276,7 +310,7 @@ def fan_out(p: dict, rng: np.random.Generator) -> dict:
 def programs(tier: str) -> list[dict]:
     rng = np.random.default_rng(seed())
     n = 600 if tier == "quick" else 6000
-    progs = directed_views() + directed_mpms()
+    progs = directed_views() + directed_mpms() + directed_dce()
     for k in range(n):
         p = progspace.random_program(rng, f"p{k}", int(rng.integers(2, 8)))
         p = enrich(p, rng)
